@@ -1,8 +1,197 @@
-import EpModel.Model.Dec.Headers
-import EpModel.Spec.Decode
-/- C07 — first theorems (extended below as they are proved) -/
+import EpModel.Props.C03
+import EpModel.Lemmas.SpecSane
+/-
+  C07 — length and content errors describe the real fault.
+
+  The "real fault" of a byte string is what the wire-format reading (`Spec.decode`, Spec/Decode.lean)
+  reports: class, unit, absolute offset, bytes available, bytes needed, and the limiter that put the end
+  of the available data where it is.  `Describes e f` is C07's statement about a reported `LenError e`.
+
+  Proved for every byte string and all four strict whole-packet starts: `…_partial`, i.e. `Describes`
+  except that the length source may be one of the two `KnownSrcException`s (ARP address lengths,
+  MACsec short length – known findings F9/F12, pinned by the crate's own tests).  The full statement is
+  `FullStatement`; `full_statement_false_*` prove, with concrete packets, that it does not hold of the
+  model (the checker replays these packets against the crate and prints them as KNOWN-FINDING).
+  Lax stop errors and the PacketHeaders/IpHeaders families are covered by the correspondence + oracle
+  (tools/epcheck/props/c07.py), not by a theorem.
+-/
 namespace EpModel.Props.C07
-open EpModel EpModel.Dec
+open EpModel EpModel.Dec EpModel.Spec EpModel.Lemmas.Refine EpModel.Props.C03
+
+/-- C07 for one reported length error `e`, where `f` is the fault the bytes really have. -/
+structure Describes (e : LenError) (f : Fault) : Prop where
+  /-- the layer that actually failed -/
+  layer : LayerUnit e.layer f.unit
+  /-- its true offset from the start of the caller's buffer -/
+  off : e.off = f.off
+  /-- the bytes really available to it -/
+  len : e.len = f.avail
+  /-- the bytes it really requires -/
+  req : e.req = f.need
+  /-- `required_len > len` for missing data -/
+  missing : f.cls ≠ .tooLong → e.len < e.req
+  /-- `required_len < len` for oversized data -/
+  oversized : f.cls = .tooLong → e.req < e.len
+  /-- a length source other than the slice only if that field is what limited the data -/
+  src : e.src = .slice ∨ e.src = f.lim
+
+/-- the same with the two known exceptions on the length source admitted -/
+structure DescribesPartial (e : LenError) (f : Fault) : Prop where
+  layer : LayerUnit e.layer f.unit
+  off : e.off = f.off
+  len : e.len = f.avail
+  req : e.req = f.need
+  missing : f.cls ≠ .tooLong → e.len < e.req
+  oversized : f.cls = .tooLong → e.req < e.len
+  src : e.src = .slice ∨ e.src = f.lim ∨ KnownSrcException e
+
+/-- the four strict whole-packet decoders and the wire-format reading they are compared with -/
+inductive Entry
+  | eth | sll | etherType (et : Nat) | ip
+
+def Entry.run (b : Bytes) : Entry → Except PErr Packet
+  | .eth => slicedFromEthernet (memOf b) b.length
+  | .sll => slicedFromLinuxSll (memOf b) b.length
+  | .etherType et => slicedFromEtherType (memOf b) et b.length
+  | .ip => slicedFromIp (memOf b) b.length
+
+def Entry.start : Entry → Start
+  | .eth => .eth
+  | .sll => .sll
+  | .etherType et => .etherType et
+  | .ip => .ip
+
+/-- `IpSlice::from_slice` on an IPv4 header in 1..19 bytes reports the IHL it finds (see C03) -/
+def Entry.shortV4 (b : Bytes) : Entry → Prop
+  | .ip => memOf b 0 / 16 = 4 ∧ 0 < b.length ∧ b.length < 20
+  | _ => False
+
+theorem entry_refines (x : Entry) (b : Bytes) (h : ¬ x.shortV4 b) :
+    Refines (x.run b) (Spec.decode x.start (memOf b) b.length) := by
+  cases x with
+  | eth => exact strict_from_ethernet_matches_wire_formats b
+  | sll => exact strict_from_linux_sll_matches_wire_formats b
+  | etherType et => exact strict_from_ether_type_matches_wire_formats et b
+  | ip =>
+    have := strict_from_ip_matches_wire_formats b
+    simp only [Entry.shortV4] at h
+    simp only [h, if_false] at this
+    exact this
+
+/-- C07, full strength, for the strict whole-packet decoders (see `full_statement_false_*`). -/
+def FullStatement : Prop :=
+  ∀ (x : Entry) (b : Bytes) (e : LenError), ¬ x.shortV4 b → x.run b = .error (.len e) →
+    ∃ f, Spec.decode x.start (memOf b) b.length = .error f ∧ Describes e f
+
+/-- Every length error of a strict whole-packet decoder names the layer that failed, its true offset,
+    the bytes really available and really required, with the right inequality, and a length source
+    that is the slice, the field that limited the data, or one of the two known exceptions. -/
+theorem len_error_describes_fault_partial (x : Entry) (b : Bytes) (e : LenError) (hs : ¬ x.shortV4 b)
+    (h : x.run b = .error (.len e)) :
+    ∃ f, Spec.decode x.start (memOf b) b.length = .error f ∧ DescribesPartial e f := by
+  have hr := entry_refines x b hs
+  rw [h] at hr
+  cases hd : Spec.decode x.start (memOf b) b.length with
+  | ok p => rw [hd] at hr; simp [Refines] at hr
+  | error f =>
+    rw [hd] at hr
+    simp only [Refines, ErrMatch] at hr
+    obtain ⟨hcls, hlayer, hoff, hlen, hreq, hsrc⟩ := hr
+    have hsane := decode_sane _ _ _ _ hd
+    refine ⟨f, rfl, hlayer, hoff, hlen, hreq, ?_, ?_, hsrc⟩
+    · intro hnt
+      rw [hlen, hreq]
+      apply hsane.2
+      cases hc : f.cls <;> simp_all
+    · intro ht
+      rw [hlen, hreq]
+      exact hsane.1 ht
+
+/-- Outside the two exceptions the full statement holds. -/
+theorem len_error_describes_fault_unless_known (x : Entry) (b : Bytes) (e : LenError) (hs : ¬ x.shortV4 b)
+    (h : x.run b = .error (.len e)) (hk : ¬ KnownSrcException e) :
+    ∃ f, Spec.decode x.start (memOf b) b.length = .error f ∧ Describes e f := by
+  obtain ⟨f, hf, hd⟩ := len_error_describes_fault_partial x b e hs h
+  refine ⟨f, hf, hd.layer, hd.off, hd.len, hd.req, hd.missing, hd.oversized, ?_⟩
+  rcases hd.src with h1 | h1 | h1
+  · exact Or.inl h1
+  · exact Or.inr h1
+  · exact absurd h1 hk
+
+/-- Content errors carry the value that is present in the bytes: the spec's fault is a content fault of
+    the unit the error names, with the same value (the spec computes it from the bytes: version nibble
+    `g o / 16`, IHL `g o % 16`, data offset `g (o+12) / 16`, packet type `g16 g o`, ARPHRD `g16 g (o+2)`). -/
+theorem content_error_carries_value (x : Entry) (b : Bytes) (e : PErr) (hs : ¬ x.shortV4 b)
+    (hne : ∀ le, e ≠ .len le) (h : x.run b = .error e) :
+    ∃ f, Spec.decode x.start (memOf b) b.length = .error f ∧ ContentMatch e f := by
+  have hr := entry_refines x b hs
+  rw [h] at hr
+  cases hd : Spec.decode x.start (memOf b) b.length with
+  | ok p => rw [hd] at hr; simp [Refines] at hr
+  | error f =>
+    rw [hd] at hr
+    refine ⟨f, rfl, ?_⟩
+    cases e with
+    | len le => exact absurd rfl (hne le)
+    | _ => simpa only [Refines, ErrMatch] using hr
+
+/-- The short IPv4 header through `from_ip`: the error is a true statement about the bytes too. -/
+theorem short_ipv4_error_is_true (b : Bytes) (h : Entry.shortV4 b .ip) :
+    ∃ e, Entry.run b .ip = .error e ∧
+      ((memOf b 0 % 16 < 5 ∧ e = .ipIhl (memOf b 0 % 16)) ∨
+       (∃ le, e = .len le ∧ le.layer = .ipv4Header ∧ le.off = 0 ∧ le.len = b.length ∧
+          le.req = memOf b 0 % 16 * 4 ∧ le.len < le.req ∧ le.src = .slice)) := by
+  have := strict_from_ip_matches_wire_formats b
+  simp only [Entry.shortV4] at h
+  simp only [h, and_self, if_true] at this
+  obtain ⟨⟨e, he, hsv⟩, _⟩ := this
+  refine ⟨e, he, ?_⟩
+  rcases hsv with ⟨h5, rfl⟩ | ⟨h5, rfl⟩
+  · exact Or.inl ⟨h5, rfl⟩
+  · exact Or.inr ⟨_, rfl, rfl, rfl, rfl, rfl, by simp only; omega, rfl⟩
+
+/-- every fault of the wire-format reading is a genuine shortage (or excess) -/
+theorem fault_is_genuine (st : Start) (b : Bytes) (f : Fault)
+    (h : Spec.decode st (memOf b) b.length = .error f) : FaultSane f := decode_sane _ _ _ _ h
+
+/-! ### the full statement is false of the model (and of the crate): known findings F9 and F12 -/
+
+/-- F9: an ARP packet cut inside its addresses: the error says `ArpAddrLengths`, but what limited
+    the available 8 bytes is the slice. -/
+def arpWitness : Bytes := [0, 1, 8, 0, 6, 4, 0, 1]
+
+theorem full_statement_false_arp :
+    ∃ e f, Entry.run arpWitness (.etherType 0x0806) = .error (.len e) ∧
+      Spec.decode (.etherType 0x0806) (memOf arpWitness) arpWitness.length = .error f ∧
+      e.src = .arpAddrLengths ∧ f.lim = .slice ∧ ¬ Describes e f := by
+  refine ⟨{ req := 28, len := 8, src := .arpAddrLengths, layer := .arp, off := 0 },
+    mkFault (ctx0 8) .cutShort .arp 28, by rfl, by rfl, rfl, rfl, ?_⟩
+  intro h
+  have := h.src
+  simp [mkFault, ctx0] at this
+
+/-- F12: a MACsec frame whose short length (40) promises more than the 10 bytes behind the SecTAG:
+    the error says `MacsecShortLength`, but what limited the available data is the slice. -/
+def macsecWitness : Bytes := [0x20, 40, 0, 0, 0, 1, 1, 2, 3, 4, 5, 6, 7, 8, 0, 1, 2, 3, 4, 5, 6, 7, 8, 9]
+
+theorem full_statement_false_macsec :
+    ∃ e f, Entry.run macsecWitness (.etherType 0x88e5) = .error (.len e) ∧
+      Spec.decode (.etherType 0x88e5) (memOf macsecWitness) macsecWitness.length = .error f ∧
+      e.src = .macsecShortLength ∧ f.lim = .slice ∧ ¬ Describes e f := by
+  refine ⟨{ req := 54, len := 24, src := .macsecShortLength, layer := .macsecPacket, off := 0 },
+    mkFault (ctx0 24) .claimsMore .macsecPacket 54, by rfl, by rfl, rfl, rfl, ?_⟩
+  intro h
+  have := h.src
+  simp [mkFault, ctx0] at this
+
+theorem full_statement_is_false : ¬ FullStatement := by
+  intro hfull
+  obtain ⟨e, f, hrun, hdec, _, _, hnd⟩ := full_statement_false_arp
+  obtain ⟨f', hf', hd⟩ := hfull (.etherType 0x0806) arpWitness e (by simp [Entry.shortV4]) hrun
+  have hf'' : Spec.decode (.etherType 0x0806) (memOf arpWitness) arpWitness.length = .error f' := hf'
+  rw [hdec] at hf''
+  cases hf''
+  exact hnd hd
 
 /-- every strict UDP slice lies inside the slice it was cut from. -/
 theorem udp_within (g : Mem) (o l : Nat) (w : Win) (h : udpFromSlice g o l = .ok w) :
